@@ -16,7 +16,9 @@
 (*                                                                         *)
 (* The properties are the invariants at the end (C04 NoSharing, C05        *)
 (* TTLRule NeverServedAfterExpiry AdmissionRule AtMostOneRefresh, C10      *)
-(* Isolation HitId, C19 RestartTransparent LoadSubset).  Deviation         *)
+(* Isolation HitId, C19 RestartTransparent; truncated loads add a subset  *)
+(* of the dump by construction of LoadCut and are judged in the trace     *)
+(* spec).  Deviation                                                     *)
 (* switches (KeyFields, TTLMode, Dedup, Alias, DumpFields, Admit) make     *)
 (* every invariant falsifiable (non-vacuity configs *_nv_*.cfg).           *)
 (* The numbers 30 / 5 / 300 / 5 / 1 of the property are constants of the   *)
